@@ -1,5 +1,6 @@
 """C11 - join computes the relational join with the documented aggregates (E2, reference model)."""
 import copy
+import decimal
 import itertools
 import collections
 
@@ -18,8 +19,15 @@ NUMV = [1, 0, None, -1]
 TXTV = ['x', 'y', None]
 
 
-def fields_spec(universe, wildcard=False):
+NUMKEY = {'a': decimal.Decimal('1.0'), 'b': decimal.Decimal('1.00'), 'c': decimal.Decimal('1.00'), None: None}
+
+
+def fields_spec(universe, wildcard=False, onlylast=False):
     aggs = NUM_AGGS if universe == 'num' else TXT_AGGS
+    if onlylast:
+        # nothing but 'last' and the default 'any' (no aggregate that needs a running state)
+        return collections.OrderedDict([('v_last', {'name': 'v', 'aggregate': 'last'}), ('v_any', {'name': 'v'}),
+                                        ('o_last', {'name': 'o', 'aggregate': 'last'})])
     f = collections.OrderedDict()
     for a in aggs:
         f['v_' + a] = {'name': 'v', 'aggregate': a}
@@ -146,15 +154,17 @@ def model_join(src, tgt, shape, mode, fields, dedup=False):
 # ---- execution ---------------------------------------------------------------------------------
 def run_join(case):
     universe = case['u']
-    src = [{'k': k, 'v': v, 'o': i} for i, (k, v) in enumerate(case['src'])]
+    km = NUMKEY if case.get('numkey') else {k: k for k in ('a', 'b', 'c', None)}
+    src = [{'k': km[k], 'v': v, 'o': i} for i, (k, v) in enumerate(case['src'])]
     tk = 'tk' if case.get('tkey') else 'k'
-    tgt = [{tk: k, 't': 'T%d' % i} for i, k in enumerate(case['tgt'])]
+    tgt = [{tk: km[k], 't': 'T%d' % i} for i, k in enumerate(case['tgt'])]
     vtype = 'integer' if universe == 'num' else 'string'
-    st = mkstate([('src', [('k', 'string'), ('v', vtype), ('o', 'integer')], src),
+    ktype = 'number' if case.get('numkey') else 'string'
+    st = mkstate([('src', [('k', ktype), ('v', vtype), ('o', 'integer')], src),
                   ('mid', [('z', 'string')], [{'z': 'untouched'}]),
-                  ('tgt', [(tk, 'string'), ('t', 'string')], tgt)])
+                  ('tgt', [(tk, ktype), ('t', 'string')], tgt)])
     wildcard = case.get('wild', False)
-    fields = fields_spec(universe, wildcard)
+    fields = fields_spec(universe, wildcard, case.get('onlylast', False))
     m = core.mod('dataflows.processors.join')
     old = m.KVFile
     if case.get('spill'):
@@ -176,7 +186,7 @@ def run_join(case):
 
 
 def check(case):
-    label = 'join(%s) src=%r tgt=%r' % (', '.join('%s=%s' % (k, case[k]) for k in ('u', 'shape', 'mode', 'source_delete', 'spill', 'dedup', 'wild', 'tkey') if k in case),
+    label = 'join(%s) src=%r tgt=%r' % (', '.join('%s=%s' % (k, case[k]) for k in ('u', 'shape', 'mode', 'source_delete', 'spill', 'dedup', 'wild', 'tkey', 'onlylast', 'numkey') if k in case),
                                        case['src'], case['tgt'])
     try:
         src, tgt, fields, out = run_join(case)
@@ -288,6 +298,12 @@ def cases(tier):
                     out.append({'u': u, 'src': s, 'tgt': t, 'mode': mode, 'shape': 'list', 'source_delete': False})
                     out.append({'u': u, 'src': s, 'tgt': t, 'mode': mode, 'shape': 'list', 'spill': True})
                 out.append({'u': u, 'src': s, 'tgt': t, 'mode': 'half-outer', 'shape': 'list', 'wild': True})
+                for mode in ('half-outer', 'full-outer'):
+                    out.append({'u': u, 'src': s, 'tgt': t, 'mode': mode, 'shape': 'list', 'onlylast': True})
+                    if u == 'num':
+                        # key values that are equal as numbers but render differently (1.0 / 1.00): distinct keys
+                        out.append({'u': u, 'src': s, 'tgt': t, 'mode': mode, 'shape': 'list', 'numkey': True})
+                        out.append({'u': u, 'src': s, 'tgt': t, 'mode': mode, 'shape': 'format', 'numkey': True})
                 for mode in ('inner', 'half-outer', 'full-outer'):
                     out.append({'u': u, 'src': s, 'tgt': t, 'mode': mode, 'shape': 'list', 'tkey': True})
                     if u == 'num':
@@ -295,6 +311,9 @@ def cases(tier):
             for shape in shapes:
                 out.append({'u': u, 'src': s, 'tgt': [], 'shape': shape, 'dedup': True})
                 out.append({'u': u, 'src': s, 'tgt': [], 'shape': shape, 'dedup': True, 'spill': True})
+            out.append({'u': u, 'src': s, 'tgt': [], 'shape': 'list', 'dedup': True, 'onlylast': True})
+            if u == 'num':
+                out.append({'u': u, 'src': s, 'tgt': [], 'shape': 'list', 'dedup': True, 'numkey': True})
         if tier == 'thorough':
             for s in seqs(list(itertools.product(KEYS_SRC, vals)), 3):
                 if len(s) < 3:
